@@ -298,7 +298,7 @@ def getitem(I, a, idx):
     I.ctx.trust(T_NUMPY)
     if is_basic(idx):
         v = basic_index(I, a, idx)
-        if v.ndim == 0:
+        if v.ndim == 0 and idx is not Ellipsis:
             return v.get()
         return v
     if isinstance(idx, SArr) and idx.kind == 'b':
@@ -892,6 +892,16 @@ def _zeros(I, args, kw):
     k = dtype_kind(dt)
     zero = {'f': Fraction(0), 'i': 0, 'b': False}.get(k, 0)
     return SArr(tuple(shp), lambda q: zero, k, tag='zeros')
+
+
+def _ma_zeros(I, args, kw):
+    a = _zeros(I, args[:1], {'dtype': kw.get('dtype', args[1] if len(args) > 1 else 'd')})
+    a.mask = SArr(a.shape, lambda q: False, 'b', tag='nomask')
+    a.attrs['fill_value'] = kw.get('fill_value')
+    return a
+
+
+models._REG['numpy.ma.zeros'] = Builtin('numpy.ma.zeros', _ma_zeros, T_NUMPY)
 
 
 @_np('zeros_like')
